@@ -44,6 +44,7 @@ class Builder:
         self.all_values: list = []
         self.all_nodes: list = []
         self.uses_custom = False
+        self.ref_attr = None  # name of the enclosing function's attribute parameter while a function body is built
 
     def fresh(self, prefix: str) -> str:
         self.k += 1
@@ -181,8 +182,12 @@ class Builder:
                     exprs.append((op, tuple(ins)))
                 if op in ("Add",) and rng.random() < p["p_optional"]:
                     pass
-                n = ir.Node("", op, ins, name=self.fresh("n"))
-            shape_known = (n.domain == "" and n.op_type in ("Add", "Sub", "Mul", "Neg", "Relu", "Identity", "Abs", "Constant")) or n.domain == "custom"
+                if self.ref_attr is not None and rng.random() < 0.3:
+                    # in a function body: an attribute that refers to the function's own attribute parameter
+                    n = ir.Node("", "LeakyRelu", ins[:1], [ir.RefAttr("alpha", self.ref_attr, ir.AttributeType.FLOAT)], name=self.fresh("n"))
+                else:
+                    n = ir.Node("", op, ins, name=self.fresh("n"))
+            shape_known = (n.domain == "" and n.op_type in ("Add", "Sub", "Mul", "Neg", "Relu", "Identity", "Abs", "Constant", "LeakyRelu")) or n.domain == "custom"
             if n.op_type == "Constant" and "value" not in n.attributes:
                 shape_known = False
             for oi, o in enumerate(n.outputs):
@@ -242,9 +247,12 @@ def gen_model(rng, p: Params | None = None) -> ir.Model:
         saved = b.functions
         b.functions = list(functions)  # nesting: a function may call earlier ones
         fdepth = 1 if (p["depth"] > 0 and rng.random() < p.get("p_func_subgraph", 0.35)) else 0
+        has_attr = rng.random() < 0.5
+        b.ref_attr = "alpha" if (has_attr and p.get("ref_attrs", True)) else None
         fg, _ = b.build_body([], fdepth, rng.randrange(1, 5), fin, 1, b.fresh("fbody"))
+        b.ref_attr = None
         b.functions = saved
-        f = ir.Function("fdom", f"F{i}", "", graph=fg, attributes=[ir.Attr("alpha", ir.AttributeType.FLOAT, 1.0)] if rng.random() < 0.5 else [])
+        f = ir.Function("fdom", f"F{i}", "", graph=fg, attributes=[ir.Attr("alpha", ir.AttributeType.FLOAT, 1.0)] if has_attr else [])
         fg.opset_imports[""] = 20
         fg.opset_imports["fdom"] = 1
         if b.uses_custom:
